@@ -159,6 +159,21 @@ def gen_same_var_marker(rng, leaves=None):
         parts[i:i + 2] = [merged]
     return parts[0]
 
+def gen_release_mixed_marker(rng):
+    """2-3 clauses on platform_release: the one variable that is read as a version when its value looks like one and as a plain
+    string otherwise - version comparisons, equality with values that are not versions, substring tests, joined by and/or."""
+    def leaf():
+        m = rng.random()
+        if m < 0.4: return f'platform_release {rng.choice(["<", "<=", ">", ">=", "==", "!=", "~="])} {q(rng, rng.choice(["5.10", "5.4.0", "10", "6.1.0", "4.19"]))}'
+        if m < 0.6: return f'platform_release {rng.choice(["==", "!="])} {q(rng, rng.choice(["5.10.0-arch1-1", "generic", "10.0.19041", "5.15.0-1034-aws"]))}'
+        if m < 0.8: return f'{q(rng, rng.choice(["arm", "aws", "5.1", "arch"]))} {rng.choice(["in", "not in"])} platform_release'
+        return f'platform_release {rng.choice(["in", "not in"])} {q(rng, rng.choice(["5.10 5.4", "5.10.0-arch1-1, generic", "10"]))}'
+    parts = [leaf() for _ in range(rng.choice([2, 2, 3]))]
+    out = parts[0]
+    for x in parts[1:]:
+        out = out + rng.choice([" and ", " or "]) + x
+    return out
+
 def gen_degenerate_marker(rng):
     """A marker with a contradictory (or always-true) parenthesised group in a random position among ordinary clauses:
     the shapes on which the simplifier must produce the empty / universal marker rather than an operand holding one."""
